@@ -106,5 +106,33 @@ let run (args : (string * string) list) : string =
      | Some (s0, rv0) ->
        add "sched" (if s0 = signature then "ok" else "FAIL(differs-from-first-pool)");
        add "schedrv" (if rv0 = rv then "ok" else "FAIL(" ^ rv0 ^ "/" ^ rv ^ ")"));
+    (* correspondence: replay of the logged visits on the abstract machine (runs without an
+       SCC refinement step); every reported value and iteration counter must agree *)
+    let steps = split_on ',' (get args "steps") in
+    if not (List.mem "A" steps) && steps <> [] then begin
+      let n = List.length s.g in
+      let order = List.init n nat_of_int in
+      let op_of t =
+        let v = nat_of_int (int_of_string (String.sub t 2 (String.length t - 2))) in
+        if t.[0] = 'F' then OFwd v else OBwd (v, order) in
+      let heur = List.map op_of (List.filter (fun t -> t.[1] = 'i') steps) in
+      let loop = List.map op_of (List.filter (fun t -> t.[1] <> 'i') steps) in
+      let cmp_opt k (c : nat option) = match get_opt args k with
+        | None -> true
+        | Some v -> (match c with Some x -> int_of_nat x = int_of_string v | None -> false) in
+      let one radial =
+        let (okf, (c, mo)) = run_logged_dm sym s.dm (nat_of_int n) radial heur loop l in
+        let vals =
+          okf
+          && (not (wants_eccf l) || mo.o_eccf = eccf)
+          && (not (wants_eccb l) || sym || mo.o_eccb = eccb)
+          && (not (wants_diam l) || (mo.o_diam = o.o_diam && mo.o_dv = o.o_dv))
+          && (not (wants_rad l) || mo.o_rad = o.o_rad)
+          && cmp_opt "ri" c.c_ri && cmp_opt "di" c.c_di && cmp_opt "fi" c.c_fi && cmp_opt "ai" c.c_ai in
+        (vals, (not (wants_rad l)) || mo.o_rv = o.o_rv) in
+      let rs = List.map one radials in
+      add "replay" (ok (List.exists fst rs));
+      if List.exists fst rs then add "replayrv" (ok (List.exists (fun (a, b) -> a && b) rs))
+    end;
     Buffer.contents res
   end
